@@ -5,13 +5,19 @@
 import json
 import sys
 
-from mcx.engine import resolve
+import os
+
+from mcx.engine import _tramp
 
 
 def main(path):
     with open(path) as f:
         rec = json.load(f)
-    res = resolve(rec['fn'])(rec['job'])
+    os.environ['VERIF_PROP'] = rec['property']
+    _, res = _tramp((rec['fn'], 0, rec['job']))
+    if res.get('harness_error'):
+        print(res['harness_error'])
+        return 2
     got = {v['key']: v for v in (res.get('viol') or [])}
     hit = [k for k in rec['keys'] if k in got]
     if hit:
